@@ -229,6 +229,7 @@ func (d *dumper) typeID(t types.Type) int {
 	if t == nil {
 		return -1
 	}
+	t = types.Unalias(t) // aliases are identical to their targets (typeutil.Map would conflate them anyway)
 	if v := d.typeIDs.At(t); v != nil {
 		return v.(int)
 	}
